@@ -576,3 +576,163 @@ def case_twin(name, mask):
     for k, c in enumerate(name):
         out.append(c.upper() if (mask >> (k % 16)) & 1 else c.lower())
     return ''.join(out)
+
+
+# --------------------------------------------------------------------------
+# display and shrinking of J-trees
+# --------------------------------------------------------------------------
+def show(j):
+    """fully parenthesised, unambiguous rendering of a J-tree (for messages; independent of loki's printers)"""
+    tag = j[0]
+    if tag in ('Int', 'Raw'):
+        return str(j[1]) if tag == 'Int' else f'{j[1]}'
+    if tag == 'IntK':
+        return f'{j[1]}_{j[2]}'
+    if tag == 'Real':
+        return j[1] + (f'_{j[2]}' if len(j) > 2 else '')
+    if tag == 'Log':
+        return '.true.' if j[1] else '.false.'
+    if tag == 'Var':
+        return j[1]
+    if tag == 'Arr':
+        return f'{j[1]}({", ".join(show(c) for c in j[2])})'
+    if tag == 'Call':
+        return f'{j[1]}({", ".join(show(c) for c in j[2])})'
+    if tag == 'Cast':
+        return f'{j[1]}({show(j[2])})'
+    if tag == 'Not':
+        return f'.not.({show(j[1])})'
+    if tag == 'Cmp':
+        return f'({show(j[2])} {j[1]} {show(j[3])})'
+    mark = '[' if tag.startswith('P') and tag != 'Product' and tag != 'Power' else '('
+    close = ']' if mark == '[' else ')'
+    if tag in MULTI:
+        op = {'Sum': ' + ', 'Product': '*', 'And': ' .and. ', 'Or': ' .or. '}[tag.replace('Raw', '').replace('PS', 'S').replace('PP', 'P')]
+        return mark + op.join(show(c) for c in j[1]) + close
+    op = ' / ' if 'Quotient' in tag else '**'
+    return mark + show(j[1]) + op + show(j[2]) + close
+
+
+def abstract(j):
+    """structure with leaves reduced to their kind: i x p (variables) N R L (literals; '-' suffix if negative) -1"""
+    tag = j[0]
+    if tag == 'Var':
+        return {'int': 'i', 'real': 'x', 'log': 'p'}[TYPE_OF_NAME[j[1].lower()]]
+    if tag == 'Raw':
+        return str(j[1]) if j[1] in (-1, 0, 1) else ('n-' if j[1] < 0 else 'n')
+    if tag in ('Int', 'IntK'):
+        return '0' if j[1] == 0 else ('N-' if j[1] < 0 else 'N')
+    if tag == 'Real':
+        return 'R-' if j[1].startswith('-') else 'R'
+    if tag == 'Log':
+        return 'L'
+    name = CLASS_NAME[tag].replace('Parenthesised', 'P')
+    if tag == 'Cmp':
+        name = 'Cmp'
+    extra = f'{j[1]}:' if tag in ('Call', 'Cast') else ''
+    return f'{name}({extra}{",".join(abstract(c) for _, c in children(j))})'
+
+
+def replace_at(j, path, new):
+    if not path:
+        return new
+    ch = [c for _, c in children(j)]
+    ch[path[0]] = replace_at(ch[path[0]], path[1:], new)
+    return with_children(j, ch)
+
+
+def paths(j, prefix=()):
+    yield prefix, j
+    for k, (_, c) in enumerate(children(j)):
+        yield from paths(c, prefix + (k,))
+
+
+CANON_LEAF = {'int': ['Var', 'i'], 'real': ['Var', 'x'], 'log': ['Var', 'p']}
+
+
+def shrink(j, failing, budget=150):
+    """greedy structural reduction of a J-tree keeping ``failing(tree)`` true and the static type of every
+    replaced subtree: hoist a child, replace a subtree by a variable, drop operands of n-ary nodes, turn literals
+    into small ones. Deterministic."""
+    left = [budget]
+
+    def ok(t):
+        if left[0] <= 0:
+            return False
+        left[0] -= 1
+        try:
+            return bool(failing(t))
+        except ValueError:
+            return False
+
+    changed = True
+    while changed and left[0] > 0:
+        changed = False
+        for path, node in list(paths(j)):
+            if node[0] in LEAVES:
+                continue
+            t = typeof(node)
+            cands = []
+            # hoist a child of the same type
+            for _, c in children(node):
+                try:
+                    if typeof(c) == t:
+                        cands.append(c)
+                except ValueError:
+                    pass
+            # a plain variable instead of the subtree
+            cands.append(CANON_LEAF[t])
+            # fewer operands
+            if node[0] in MULTI and len(node[1]) > 2:
+                for k in range(len(node[1])):
+                    if k == 0 and is_neg_form(node):
+                        continue
+                    cands.append([node[0], node[1][:k] + node[1][k + 1:]])
+            # without the Parenthesised* / bare flavour
+            if node[0] in PAREN_OF.values() or node[0].startswith('Raw'):
+                plain = node[0][1:] if node[0][0] == 'P' and node[0] not in ('Product', 'Power') else node[0].replace('Raw', '')
+                cands.append([plain] + node[1:])
+            for cand in cands:
+                if cand == node:
+                    continue
+                try:
+                    new = replace_at(j, list(path), cand)
+                    typeof(new)
+                except ValueError:
+                    continue
+                if size(new) <= size(j) and new != j and ok(new):
+                    j = new
+                    changed = True
+                    break
+            if changed:
+                break
+        if changed:
+            continue
+        # leaves: variables of one name per type where possible, literals towards 1 / 2
+        for path, node in list(paths(j)):
+            cands = []
+            if node[0] == 'Var':
+                c = CANON_LEAF[TYPE_OF_NAME[node[1].lower()]]
+                if c != node:
+                    cands.append(c)
+            elif node[0] in ('Int', 'IntK') and not (node[0] == 'Int' and node[1] in (0, 1, 2, -1)):
+                cands += [CANON_LEAF['int'], ['Int', 2 if node[1] > 0 else -1]]
+            elif node[0] == 'Int' and node[1] in (1, 2):
+                cands.append(CANON_LEAF['int'])
+            elif node[0] == 'Real':
+                cands.append(CANON_LEAF['real'])
+                if node[1] not in ('2.0', '-1.0') or len(node) > 2:
+                    cands.append(['Real', '-1.0' if node[1].startswith('-') else '2.0'])
+            for cand in cands:
+                try:
+                    new = replace_at(j, list(path), cand)
+                    typeof(new)
+                except ValueError:
+                    continue
+                if new != j and ok(new):
+                    j = new
+                    changed = True
+                    break
+            if changed:
+                break
+    return j
